@@ -366,6 +366,16 @@ C11_Frame(act, args, S, O) ==
          /\ Path5(O) = <<>> /\ Query5(O) = <<>> /\ Frag5(O) = <<>>
     [] act = "relative" -> Scheme5(O) = <<>> /\ Netloc5(O) = <<>> /\ SameTail(S, O)
     [] OTHER -> TRUE
+\* The frame covers every public view, decoded ones included: a component the modifier cleared reads None in BOTH views, and a
+\* decoded authority view the modifier does not own is the receiver's (only the fields present in both observations are judged).
+C11_DecodedPairs == { <<"raw_user", "user">>, <<"raw_password", "password">>, <<"raw_host", "host">> }
+C11_DecodedOwned(act) == CASE act = "with_user" -> {"user", "password"} [] act = "with_password" -> {"password"}
+                           [] act = "with_host" -> {"host"} [] act \in {"origin", "relative"} -> {"user", "password", "host"} [] OTHER -> {}
+C11_DecodedFollows(act, S, O) ==
+  /\ \A pr \in C11_DecodedPairs :
+        (pr[1] \in DOMAIN O /\ pr[2] \in DOMAIN O /\ Ok(O[pr[1]]) /\ Ok(O[pr[2]])) => ((V(O[pr[1]]) = None) <=> (V(O[pr[2]]) = None))
+  /\ \A f \in {"user", "password", "host"} \ C11_DecodedOwned(act) :
+        (f \in DOMAIN O /\ f \in DOMAIN S /\ Ok(S[f]) /\ Ok(O[f])) => O[f] = S[f]
 C11_Applies(act) == act \in {"with_scheme", "with_user", "with_password", "with_host", "with_port", "with_fragment", "with_query",
    "extend_query", "update_query", "without_query_params", "mod", "with_path", "with_name", "with_suffix", "truediv",
    "joinpath", "parent", "origin", "relative"}
